@@ -52,10 +52,15 @@ Theorem C16_value_spec : forall j p c t, wf_job j -> acyclic j -> precompute j =
   exists d, nearest_sink j t d /\ lookup N.eqb t (c_value c) = Some (c_depth c - d)%Z.
 Proof. intros j p c t Hwf Hac Hp. exact (value_spec j Hwf Hac p Hp c t). Qed.
 
-(* every chain of edges inside a component has fewer tasks than the component depth *)
-Theorem C16_depth_bounds_paths : forall j p c a x d, wf_job j -> acyclic j -> precompute j = Ok p ->
-  In c (p_comps p) -> In a (c_nodes c) -> jpath j a x d -> (d <= c_depth c - 1)%Z.
-Proof. intros j p c a x d Hwf Hac Hp. exact (depth_bounds_paths j Hwf Hac p Hp c a x d). Qed.
+(* the component depth is the number of tasks on its longest chain: no chain starting in the component has
+   more than depth - 1 edges, and one has exactly that many *)
+Theorem C16_depth_spec : forall j p c, wf_job j -> acyclic j -> precompute j = Ok p -> In c (p_comps p) ->
+  (forall a x d, In a (c_nodes c) -> jpath j a x d -> (d <= c_depth c - 1)%Z) /\
+  (exists a x, In a (c_nodes c) /\ jpath j a x (c_depth c - 1)%Z).
+Proof.
+  intros j p c Hwf Hac Hp Hc. split; [|exact (depth_attained j Hwf Hac p Hp c Hc)].
+  intros a x d. exact (depth_bounds_paths j Hwf Hac p Hp c a x d Hc).
+Qed.
 
 (* distance (PreschedMain.distance_full): the recorded distance of a and b is the smallest d such that some task
    is reachable from both within d steps, and the depth if there is no such task *)
@@ -122,5 +127,5 @@ Print Assumptions C16_components_sorted.
 Print Assumptions C16_sources_exact.
 Print Assumptions C16_edge_maps_exact.
 Print Assumptions C16_value_spec.
-Print Assumptions C16_depth_bounds_paths.
+Print Assumptions C16_depth_spec.
 Print Assumptions C16_distance_spec.
